@@ -7,12 +7,15 @@ Mirrors (Python ↔ Lean)
   `get_fitness/get_fitness_for/get_is_covered/get_coverage/get_coverage_for` ↔ `cacheQuery`,
   `invalidate_cache` ↔ `Cache.invalidate`, `add_*_function` ↔ `Cache.addFit/addCov`, `clone` ↔ value copy.
 * `ga/computations.py` `_run_test_case_chromosome` ↔ `Tc.run`, `_run_test_suite_chromosome` ↔ `Suite.run`
-  (`runMember` is the loop body: re-execute changed / never executed members, clear their flag,
-  invalidate their caches).
+  (`snapshot` = the `(chromosome, needs execution)` pairs taken first, `pendingResults` = what
+  `execute_multiple` yields for the flagged positions, `handOut` = the loop that gives every flagged position the
+  next result, clears the flag and invalidates the member's cache).  Suites hold member OBJECTS by reference
+  (`Suite.objs` / `Suite.order`): the same chromosome object may sit at several positions of a suite.
 * `ga/operators/mutation.py` `TestCaseMutation.mutate` ↔ `Tc.mutate`, `TestSuiteMutation.mutate` ↔ `Suite.mutate`;
   `ga/operators/crossover.py` `splice_test_case_chromosomes` ↔ `Tc.splice`, `splice_test_suite_chromosomes`
   + `SinglePointRelativeCrossOver.cross_over` ↔ `xoverSuite`; `TestCaseChromosome.cross_over` / `TestSuiteChromosome.cross_over`
-  called directly with arbitrary positions ↔ `crossTc` / `crossSuite`; `TestSuiteChromosome.add/delete/set_test_case_chromosome`.
+  called directly with arbitrary positions ↔ `crossTc` / `crossSuite`; `TestSuiteChromosome.add/delete/set_test_case_chromosome`
+  with a new object (`addTest`, `setTest`) or with an object that already is a member (`addAlias`, `setAlias`).
 
 The *content* of a test case is an opaque identifier (`Content`, the interned source text; `0` = the empty
 test case, `size() == 0`).  What the test factory does to the statements is not modelled: a mutation is
@@ -288,23 +291,67 @@ def Tc.splice (t : Tc) : Option Content → Tc
 /-- a chromosome from the test-case chromosome factory -/
 def Tc.new (c : Content) (fs : List Func) : Tc := { content := c, cache := { funcs := fs } }
 
-/-! ## Test-suite chromosomes -/
+/-! ## Test-suite chromosomes
+
+Object identity: a suite holds member *objects* (`objs`, every `TestCaseChromosome` object once) and its
+`test_case_chromosomes` list is `order`: per position a reference into `objs`.  The same object may sit at
+several positions (`add_test_case_chromosome` / `set_test_case_chromosome` with a chromosome that already is a
+member); everything done to it through one position is seen through the others.  `clone()` and the crossover
+splice copy per position (every position of the copy is an object of its own).  Objects that no position refers
+to any more stay in `objs` as garbage.  Member objects are never shared between two suites (not modelled). -/
 
 structure Suite where
-  tests : List Tc := []
+  /-- the member objects -/
+  objs : List Tc := []
+  /-- `test_case_chromosomes`: position ↦ object -/
+  order : List Nat := []
   changed : Bool := true
   cache : Cache := {}
   deriving DecidableEq, Repr
 
-/-- loop body of `_run_test_suite_chromosome` -/
-def runMember (t : Tc) : Tc × Content :=
-  match t.changed, t.result with
-  | false, some r => (t, r)
-  | _, _ => ({ t with result := some t.content, changed := false, cache := t.cache.invalidate }, t.content)
+/-- the object behind a reference (`step` never creates a dangling reference; a dangling one reads as a fresh
+empty test that is never stored) -/
+def objAt (st : List Tc) (i : Nat) : Tc := st.getD i (Tc.new 0 [])
+
+/-- `test_case_chromosomes`, by value -/
+def Suite.members (s : Suite) : List Tc := s.order.map (objAt s.objs)
+
+/-- `test_case_chromosome.changed or test_case_chromosome.get_last_execution_result() is None` -/
+def needsExec (t : Tc) : Bool := t.changed || t.result.isNone
+
+/-- `set_last_execution_result(result); changed = False; invalidate_cache()` -/
+def Tc.executed (t : Tc) (r : Content) : Tc :=
+  { t with result := some r, changed := false, cache := t.cache.invalidate }
+
+/-- the tuple of `(test_case_chromosome, needs execution)` pairs that `_run_test_suite_chromosome` builds first -/
+def snapshot (st : List Tc) (order : List Nat) : List (Nat × Bool) :=
+  order.map fun i => (i, needsExec (objAt st i))
+
+/-- `execute_multiple(tc.test_case for tc, changed in pairs if changed)`: one result per flagged *position*, in
+position order (the fake executor's result is the token of the executed content) -/
+def pendingResults (st : List Tc) (pairs : List (Nat × Bool)) : List Content :=
+  (pairs.filter (·.2)).map fun p => (objAt st p.1).content
+
+/-- second loop of `_run_test_suite_chromosome`: a flagged position takes `next(changed_results_iterator)` (the
+flag is the one of the snapshot, not re-evaluated), stores it in its object, clears `changed` and invalidates the
+object's cache; an unflagged position returns its object's stored result.  `none` = `StopIteration` /
+`assert result is not None`. -/
+def handOut : List Tc → List (Nat × Bool) → List Content → Option (List Tc × List Content)
+  | st, [], _ => some (st, [])
+  | st, (i, true) :: ps, r :: it =>
+    (handOut (st.set i ((objAt st i).executed r)) ps it).map fun p => (p.1, r :: p.2)
+  | _, (_, true) :: _, [] => none
+  | st, (i, false) :: ps, it =>
+    match (objAt st i).result with
+    | some r => (handOut st ps it).map fun p => (p.1, r :: p.2)
+    | none => none
 
 /-- `TestSuiteChromosomeComputation._run_test_suite_chromosome` -/
 def Suite.run (s : Suite) : Suite × List Content :=
-  ({ s with tests := s.tests.map (fun t => (runMember t).1) }, s.tests.map (fun t => (runMember t).2))
+  let pairs := snapshot s.objs s.order
+  match handOut s.objs pairs (pendingResults s.objs pairs) with
+  | some p => ({ s with objs := p.1 }, p.2)
+  | none => (s, [])
 
 def suiteHost : Host Suite (List Content) := ⟨Suite.run, (·.changed), fun s => { s with changed := false }⟩
 
@@ -312,55 +359,78 @@ def Suite.query (S : Sem (List Content)) (V : Ver) (q : Query) (s : Suite) : Sui
   let p := cacheQuery suiteHost S V q s s.cache
   ({ p.1.1 with cache := p.1.2 }, p.2)
 
-def Suite.addTest (s : Suite) (t : Tc) : Suite := { s with tests := s.tests ++ [t], changed := true }
+/-- `add_test_case_chromosome(t)` with a new object `t` -/
+def Suite.addTest (s : Suite) (t : Tc) : Suite :=
+  { s with objs := s.objs ++ [t], order := s.order ++ [s.objs.length], changed := true }
+
+/-- `add_test_case_chromosome(get_test_case_chromosome(k))`: the member object of position `k` once more -/
+def Suite.addAlias (s : Suite) (k : Nat) : Suite :=
+  match s.order[k]? with
+  | some i => { s with order := s.order ++ [i], changed := true }
+  | none => s
 
 /-- `delete_test_case_chromosome`; `k` = index that `list.remove` found (`ValueError` is swallowed) -/
 def Suite.delTest (s : Suite) (k : Nat) : Suite :=
-  if k < s.tests.length then { s with tests := s.tests.eraseIdx k, changed := true } else s
+  if k < s.order.length then { s with order := s.order.eraseIdx k, changed := true } else s
 
-def Suite.setTest (s : Suite) (k : Nat) (t : Tc) : Suite := { s with tests := s.tests.set k t, changed := true }
+/-- `set_test_case_chromosome(k, t)` with a new object `t` -/
+def Suite.setTest (s : Suite) (k : Nat) (t : Tc) : Suite :=
+  { s with objs := s.objs ++ [t], order := s.order.set k s.objs.length, changed := true }
 
-/-- `splice_test_suite_chromosomes(parent, other, p1, p2)` -/
+/-- `set_test_case_chromosome(k, get_test_case_chromosome(j))` -/
+def Suite.setAlias (s : Suite) (k j : Nat) : Suite :=
+  match s.order[j]? with
+  | some i => { s with order := s.order.set k i, changed := true }
+  | none => s
+
+/-- `TestSuiteChromosome.clone()`: every position becomes an object of its own -/
+def Suite.clone (s : Suite) : Suite := { s with objs := s.members, order := List.range s.order.length }
+
+/-- `splice_test_suite_chromosomes(parent, other, p1, p2)`; `other` = the other parent's members by position,
+each of `other[p2:]` is cloned into a new object -/
 def Suite.splice (s : Suite) (other : List Tc) (p1 p2 : Nat) : Suite :=
-  { s with tests := s.tests.take p1 ++ other.drop p2, changed := true }
+  { s with objs := s.objs ++ other.drop p2,
+           order := s.order.take p1 ++ (List.range (other.drop p2).length).map (· + s.objs.length),
+           changed := true }
 
 structure SuiteMutEff where
-  /-- per member: `none` = not selected, `some e` = `test.mutate()` with effect `e` -/
+  /-- per *position*: `none` = not selected, `some e` = `test.mutate()` with effect `e` (an object that sits at
+  two selected positions is mutated twice) -/
   per : List (Option MutEff)
   /-- chromosomes appended from the factory: content, registered fitness functions -/
   added : List (Content × List Func)
   deriving DecidableEq, Repr
 
-/-- first loop of `TestSuiteMutation.mutate`; the flag is the local `changed` -/
-def mutMembers (V : Ver) : List Tc → List (Option MutEff) → List Tc × Bool
-  | t :: ts, some e :: es =>
-    let t' := t.mutate V e
-    let r := mutMembers V ts es
-    (t' :: r.1, t'.changed || r.2)
-  | t :: ts, none :: es =>
-    let r := mutMembers V ts es
-    (t :: r.1, r.2)
-  | ts, _ => (ts, false)
+/-- first loop of `TestSuiteMutation.mutate` over the positions; the flag is the local `changed` -/
+def mutObjs (V : Ver) : List Tc → List Nat → List (Option MutEff) → List Tc × Bool
+  | st, i :: is, some e :: es =>
+    let t' := (objAt st i).mutate V e
+    let r := mutObjs V (st.set i t') is es
+    (r.1, t'.changed || r.2)
+  | st, _ :: is, none :: es => mutObjs V st is es
+  | st, _, _ => (st, false)
 
 /-- `TestSuiteMutation.mutate` -/
 def Suite.mutate (V : Ver) (s : Suite) (e : SuiteMutEff) : Suite :=
-  let r := mutMembers V s.tests e.per
-  let ts2 := r.1 ++ e.added.map (fun p => Tc.new p.1 p.2)
+  let r := mutObjs V s.objs s.order e.per
+  let objs2 := r.1 ++ e.added.map (fun p => Tc.new p.1 p.2)
+  let order2 := s.order ++ (List.range e.added.length).map (· + r.1.length)
   let b2 := r.2 || !e.added.isEmpty
-  let ts3 := ts2.filter (fun t => t.content != 0)
-  let b3 := if V.flagFilter then b2 || ts3.length != ts2.length else b2
-  { s with tests := ts3, changed := if b3 then true else s.changed }
+  let order3 := order2.filter (fun i => (objAt objs2 i).content != 0)
+  let b3 := if V.flagFilter then b2 || order3.length != order2.length else b2
+  { s with objs := objs2, order := order3, changed := if b3 then true else s.changed }
 
 /-- the filter of `TestSuiteMutation.mutate` drops an empty test only when the local `changed` is set -/
 def Suite.filterOk (V : Ver) (s : Suite) (e : SuiteMutEff) : Bool :=
-  let r := mutMembers V s.tests e.per
-  r.2 || !e.added.isEmpty ||
-    (r.1 ++ e.added.map (fun p => Tc.new p.1 p.2)).all (fun t => t.content != 0)
+  let r := mutObjs V s.objs s.order e.per
+  r.2 || !e.added.isEmpty || s.order.all (fun i => (objAt r.1 i).content != 0)
 
-def perHonest : List Tc → List (Option MutEff) → Bool
-  | t :: ts, some e :: es => e.honest t.content && perHonest ts es
-  | _ :: ts, none :: es => perHonest ts es
-  | _, _ => true
+/-- every selected position's effect is an honest report about the object as it is at that moment -/
+def perHonest (V : Ver) : List Tc → List Nat → List (Option MutEff) → Bool
+  | st, i :: is, some e :: es =>
+    e.honest (objAt st i).content && perHonest V (st.set i ((objAt st i).mutate V e)) is es
+  | st, _ :: is, none :: es => perHonest V st is es
+  | _, _, _ => true
 
 /-! ## Worlds and histories -/
 
@@ -384,6 +454,10 @@ inductive Op
   | addTest (s i : Nat)
   | delTest (s k : Nat)
   | setTest (s k i : Nat)
+  /-- `suites[s].add_test_case_chromosome(suites[s].get_test_case_chromosome(k))`: the same OBJECT again -/
+  | addAlias (s k : Nat)
+  /-- `suites[s].set_test_case_chromosome(k, suites[s].get_test_case_chromosome(j))` -/
+  | setAlias (s k j : Nat)
   | mutateSuite (s : Nat) (e : SuiteMutEff)
   /-- `SinglePointRelativeCrossOver` on two suites with split positions `p1`, `p2` -/
   | xoverSuite (s t p1 p2 : Nat)
@@ -420,9 +494,12 @@ def onSuite (w : World) (i : Nat) (f : Suite → Suite × Out) : World × Out :=
 
 def onMem (w : World) (i k : Nat) (f : Tc → Tc × Out) : World × Out :=
   onSuite w i fun s =>
-    match s.tests[k]? with
+    match s.order[k]? with
     | none => (s, .err .badRef)
-    | some t => let p := f t; ({ s with tests := s.tests.set k p.1 }, p.2)
+    | some i =>
+      match s.objs[i]? with
+      | none => (s, .err .badRef)
+      | some t => let p := f t; ({ s with objs := s.objs.set i p.1 }, p.2)
 
 /-- apply a cache-level edit to the referenced chromosome -/
 def onCache (w : World) (r : Ref) (g : Cache → Cache) : World × Out :=
@@ -452,7 +529,7 @@ def step (S : Sems) (V : Ver) (w : World) : Op → World × Out
     match w.suites[src]? with
     | none => (w, .err .badRef)
     | some s =>
-      match put w.suites dst s with
+      match put w.suites dst s.clone with
       | none => (w, .err .badRef)
       | some l => ({ w with suites := l }, .unit)
   | .addTest s i =>
@@ -463,14 +540,18 @@ def step (S : Sems) (V : Ver) (w : World) : Op → World × Out
   | .setTest s k i =>
     match w.tcs[i]? with
     | none => (w, .err .badRef)
-    | some t => onSuite w s fun x => if k < x.tests.length then (x.setTest k t, .unit) else (x, .err .badRef)
+    | some t => onSuite w s fun x => if k < x.order.length then (x.setTest k t, .unit) else (x, .err .badRef)
+  | .addAlias s k => onSuite w s fun x => if k < x.order.length then (x.addAlias k, .unit) else (x, .err .badRef)
+  | .setAlias s k j =>
+    onSuite w s fun x =>
+      if k < x.order.length && j < x.order.length then (x.setAlias k j, .unit) else (x, .err .badRef)
   | .mutateSuite s e => onSuite w s fun x => (x.mutate V e, .unit)
   | .xoverSuite s t p1 p2 =>
     match w.suites[s]?, w.suites[t]? with
     | some a, some b =>
       if s = t then (w, .err .badRef)
-      else if a.tests.length < 2 || b.tests.length < 2 then (w, .unit)
-      else ({ w with suites := (w.suites.set s (a.splice b.tests p1 p2)).set t (b.splice a.tests p2 p1) }, .unit)
+      else if a.order.length < 2 || b.order.length < 2 then (w, .unit)
+      else ({ w with suites := (w.suites.set s (a.splice b.members p1 p2)).set t (b.splice a.members p2 p1) }, .unit)
     | _, _ => (w, .err .badRef)
   | .crossTc i j e =>
     match w.tcs[i]?, w.tcs[j]? with
@@ -478,7 +559,7 @@ def step (S : Sems) (V : Ver) (w : World) : Op → World × Out
     | _, _ => (w, .err .badRef)
   | .crossSuite s t p1 p2 =>
     match w.suites[s]?, w.suites[t]? with
-    | some a, some b => ({ w with suites := w.suites.set s (a.splice b.tests p1 p2) }, .unit)
+    | some a, some b => ({ w with suites := w.suites.set s (a.splice b.members p1 p2) }, .unit)
     | _, _ => (w, .err .badRef)
   | .addFit r f => onCache w r (·.addFit f)
   | .addCov r f => onCache w r (·.addCov f)
@@ -520,15 +601,15 @@ def registered (c : Cache) : Query → Bool
 def refCache (w : World) : Ref → Option Cache
   | .tc i => (w.tcs[i]?).map (·.cache)
   | .su s => (w.suites[s]?).map (·.cache)
-  | .mem s k => (w.suites[s]?).bind fun x => (x.tests[k]?).map (·.cache)
+  | .mem s k => (w.suites[s]?).bind fun x => (x.order[k]?).bind fun i => (x.objs[i]?).map (·.cache)
 
 /-- from-scratch value of a query on the current world (`none`: dangling reference) -/
 def scratch (S : Sems) (w : World) (r : Ref) (q : Query) : Option Out :=
   match r with
   | .tc i => (w.tcs[i]?).map fun t => expected S.tc t.content t.cache.funcs t.cache.covFuncs q
   | .su s => (w.suites[s]?).map fun x =>
-      expected S.su (x.tests.map (·.content)) x.cache.funcs x.cache.covFuncs q
-  | .mem s k => (w.suites[s]?).bind fun x => (x.tests[k]?).map fun t =>
+      expected S.su (x.members.map (·.content)) x.cache.funcs x.cache.covFuncs q
+  | .mem s k => (w.suites[s]?).bind fun x => (x.order[k]?).bind fun i => (x.objs[i]?).map fun t =>
       expected S.tc t.content t.cache.funcs t.cache.covFuncs q
 
 /-- admissible step: mutation effects are honest reports, queries name registered functions.
@@ -537,7 +618,7 @@ def admissible (V : Ver) (strict : Bool) (w : World) : Op → Bool
   | .mutateTc i e => match w.tcs[i]? with | some t => e.honest t.content | none => true
   | .mutateSuite s e =>
     match w.suites[s]? with
-    | some x => perHonest x.tests e.per && (!strict || V.flagFilter || x.filterOk V e)
+    | some x => perHonest V x.objs x.order e.per && (!strict || V.flagFilter || x.filterOk V e)
     | none => true
   | .query r q => match refCache w r with | some c => registered c q | none => true
   | _ => true
